@@ -649,3 +649,78 @@ func FmtList(l []string) string {
 	sort.Strings(c)
 	return strings.Join(c, ",")
 }
+
+// CheckWalks is a self-check of the specification weights by brute force: for every node n and key
+// T, n.W[T] must equal the largest number of tuple hops on any walk from n to terminal type T that
+// stays inside nodes carrying key T (an intersection lacking T passes nothing on), Infinite exactly
+// when such a walk can go round a cycle. It shares only the key sets with Weights, not the
+// arithmetic. Call after a successful Weights(Quirks{}). Returns "" or a description.
+func (g *Graph) CheckWalks() string {
+	comp, comps := g.sccs(func(*Edge) bool { return true })
+	onCycle := func(n *Node) bool {
+		if len(comps[comp[n]]) > 1 {
+			return true
+		}
+		for _, e := range n.Edges {
+			if e.To == n {
+				return true
+			}
+		}
+		return false
+	}
+	for _, id := range g.Order {
+		n := g.Nodes[id]
+		if n.Terminal() {
+			continue
+		}
+		for T, want := range n.W {
+			budget := 200000
+			var longest func(x *Node, depth int) int // returns Infinite, or hop count, or -1 when T is not reached
+			longest = func(x *Node, depth int) int {
+				budget--
+				if budget < 0 || depth > 200 {
+					return -2
+				}
+				if onCycle(x) {
+					return Infinite
+				}
+				best := -1
+				for _, e := range x.Edges {
+					var v int
+					switch {
+					case e.To.Kind == "type" && e.To.ID == T, e.To.Kind == "wild" && strings.TrimSuffix(e.To.ID, ":*") == T:
+						v = 1
+					case e.To.Terminal():
+						continue
+					default:
+						if _, ok := e.To.W[T]; !ok {
+							continue
+						}
+						v = longest(e.To, depth+1)
+						if v == -2 {
+							return -2
+						}
+						if v < 0 {
+							continue
+						}
+						if v != Infinite && e.Hop() {
+							v++
+						}
+					}
+					if v > best {
+						best = v
+					}
+				}
+				return best
+			}
+			got := longest(n, 0)
+			if got == -2 {
+				continue // too large for brute force
+			}
+			if got != want {
+				return fmt.Sprintf("reference self-check: node %s key %s: weights say %d, brute-force longest walk says %d", n.ID, T, want, got)
+			}
+		}
+	}
+	return ""
+}
